@@ -1,0 +1,33 @@
+# Contracts for the verifier in /verif (comment-only file: it contributes no code and is never imported).
+# Read by /verif/pyvc/pyvc.py as a "wiring" unit: the defaults in the class body of configuration.FailSafeConfig, the one
+# construction FailSafe(...) in lunar_interceptor/__init__.py and the body of FailSafe.__init__ are followed, in that
+# order, through the real sources. The parameter and field names are crosswise in two of the three places; what the
+# property needs is the end-to-end statement below.
+
+#@ module configuration.py + __init__.py + fail_safe.py
+#@ const _DEFAULT_MAX_ERROR_ALLOWED = 5
+#@ const _DEFAULT_FAILSAFE_COOLDOWN_SEC = 10
+# the environment (trusted observers): whether a variable is set to a parseable integer, and that integer
+#@ extern env_set
+#@   args key
+#@   returns bool
+#@ extern env_int
+#@   args key
+#@   returns int
+
+#@ class FailSafe
+#@   field _logger: opaque
+#@   field _state_ok: bool
+#@   field _error_counter: int
+#@   field _cooldown_started_at: real
+#@   field _handle_on: opaque
+#@   field _max_errors_allowed: int
+#@   field _cooldown_time: int
+
+# "the configured number of consecutive gateway-side failures" is LUNAR_ENTER_COOLDOWN_AFTER_ATTEMPTS and "the cool-down
+# period" is LUNAR_EXIT_COOLDOWN_AFTER_SEC, whenever they are set to a positive number; the fail-safe starts closed
+#@ method FailSafe.__init__
+#@   prop C19
+#@   ensures[threshold-is-the-configured-attempts] env_set("LUNAR_ENTER_COOLDOWN_AFTER_ATTEMPTS") and env_int("LUNAR_ENTER_COOLDOWN_AFTER_ATTEMPTS") > 0 ==> self._max_errors_allowed == env_int("LUNAR_ENTER_COOLDOWN_AFTER_ATTEMPTS")
+#@   ensures[cool-down-is-the-configured-seconds] env_set("LUNAR_EXIT_COOLDOWN_AFTER_SEC") and env_int("LUNAR_EXIT_COOLDOWN_AFTER_SEC") > 0 ==> self._cooldown_time == env_int("LUNAR_EXIT_COOLDOWN_AFTER_SEC")
+#@   ensures[starts-closed-and-clean] self._state_ok == True and self._error_counter == 0
